@@ -1,6 +1,7 @@
 package main
 
 import (
+	"strings"
 	"fmt"
 	"sort"
 
@@ -255,6 +256,91 @@ func genC16(g *Gen) {
 			}
 		}
 		g.Run("registration interleaved with reading", seg)
+	}
+	// many siblings under one node, very long symbols, hundreds of registrations between two reads of the same input
+	{
+		type reg struct {
+			s []rune
+			t int
+		}
+		// number of tokens a longest-match reading of the input yields under the registrations made so far
+		count := func(regs []reg, in []rune) int {
+			n := 0
+			for i := 0; i < len(in); n++ {
+				best := 1
+				for _, rg := range regs {
+					if len(rg.s) > best && i+len(rg.s) <= len(in) && string(in[i:i+len(rg.s)]) == string(rg.s) {
+						best = len(rg.s)
+					}
+				}
+				i += best
+			}
+			return n
+		}
+		emit := func(gen string, steps []any) {
+			seg := []Ev{{"op": "new"}}
+			var regs []reg
+			for _, st := range steps {
+				switch x := st.(type) {
+				case reg:
+					regs = append(regs, x)
+					seg = append(seg, Ev{"op": "add", "sym": cpsR(x.s), "type": x.t})
+				case []rune:
+					seg = append(seg, Ev{"op": "scan", "input": cpsR(x)})
+					for k := count(regs, x); k > 0; k-- {
+						seg = append(seg, Ev{"op": "next"})
+					}
+				}
+			}
+			g.Run(gen, seg)
+		}
+		firsts := []rune("abcdefghijklmnopqrstuvwxyz0123456789@$%&*+-/<=>?^_~|")
+		for _, nsib := range []int{15, 16, 17, 18, 33, 50} {
+			for _, parent := range []string{"", "<", "ab"} {
+				var steps []any
+				for i := 0; i < nsib; i++ {
+					steps = append(steps, reg{[]rune(parent + string(firsts[i])), 100 + i})
+				}
+				probe := []rune(parent + "a=" + parent + string(firsts[nsib-1]) + "=" + parent + "b" + parent + "a=x")
+				steps = append(steps, probe)
+				// extend and re-type symbols that start with the early and the late siblings
+				steps = append(steps, reg{[]rune(parent + "a="), 200}, reg{[]rune(parent + string(firsts[nsib-1]) + "="), 201}, reg{[]rune(parent + "b"), 202}, probe,
+					reg{[]rune(parent + "a=x"), 203}, reg{[]rune(parent + string(firsts[nsib/2]) + "!!"), 204}, probe, []rune(parent+string(firsts[nsib/2])+"!!"+parent+string(firsts[nsib/2])+"!"))
+				emit("many siblings under one node", steps)
+			}
+		}
+		wide := []rune{0x416, 0x2192, 0x10c, 0x13d, 0x3d, 0xff1d, 0x1f600, 0x43d}
+		var ws []any
+		for i, c := range wide {
+			ws = append(ws, reg{[]rune{'<', c}, 300 + i})
+		}
+		ws = append(ws, []rune("<Ж<→<Č<Ľ<=<＝<😀<н<x"), reg{[]rune("<Ľ="), 320}, []rune("<Ľ=<Ľ<=<н="))
+		emit("many siblings under one node", ws)
+		for _, ln := range []int{64, 127, 128, 129, 130, 150, 256, 257, 300} {
+			if ln > g.Pick(200, 400) {
+				continue
+			}
+			long := []rune(strings.Repeat("<=>!", 80))[:ln]
+			in := append(append(append([]rune{}, long...), long[:ln-10]...), 'x')
+			emit("very long symbols", []any{reg{long, 400}, in, reg{long[:ln-10], 401}, in, reg{append(append([]rune{}, long...), '#'), 402}, append(append([]rune{}, in...), append(long, '#')...)})
+		}
+		for _, between := range []int{200, 254, 255, 256, 257, 258, 511, 512, 513, 1024} {
+			if between > g.Pick(300, 1100) {
+				continue
+			}
+			for _, lateIdx := range []int{0, between / 2, between - 1} {
+				steps := []any{reg{[]rune("#"), 500}, []rune("@@ @# @")}
+				for i := 0; i < between; i++ {
+					if i == lateIdx {
+						steps = append(steps, reg{[]rune("@@"), 501})
+					} else {
+						steps = append(steps, reg{[]rune{'q', rune(0x4e00 + i)}, 600 + i%7})
+					}
+				}
+				steps = append(steps, []rune("@@ @# @"), reg{[]rune("@#"), 502}, []rune("@@ @# @"))
+				emit("hundreds of registrations between two reads", steps)
+			}
+		}
 	}
 	// larger alphabet, longer symbols, types shared/reused, non-ASCII
 	alpha := []rune{'<', '>', '=', '!', '{', '}', 0xe9, 0x416, '\n', '\r'}
